@@ -26,6 +26,20 @@ Qed.
 
 
 
+(** a history of sendBox calls on one connection, some of them with boxes that are refused: a refused box leaves
+    nothing on the wire, so the peer receives exactly the accepted boxes, in order, whatever the segmentation *)
+Lemma sendbox_history_roundtrip_proof : forall bs cs,
+  Forall (fun b => NoDup (map fst b)) bs ->
+  chunks cs (sent_wire bs) ->
+  run amp_feed amp_init cs = (filter accepted bs, Some (mode0, [])).
+Proof.
+  intros bs cs H Hc. destruct (history_wires bs H) as (ws & Hf & Hw). rewrite Hw in Hc.
+  rewrite (amp_run cs _ Hc).
+  pose proof (read_boxes (filter accepted bs) ws [] Hf) as HR. rewrite app_nil_r in HR. rewrite HR, amp_drain_nil. now rewrite app_nil_r.
+Qed.
+
+
+
 (** serialize accepts exactly the boxes whose keys have 1..255 bytes and whose values have at most 65535 *)
 Lemma representable_box_accepted_proof : forall items, forallb item_ok items = true -> exists w, serialize items = Some w.
 Proof. exact serialize_accepts. 
